@@ -175,9 +175,24 @@ class Gen:
             return ("op", r.choice(UN), [self.tree(h0, depth - 1)])
         if x < 0.94:
             return ("op", r.choice(TER), [self.tree(h0, depth - 1) for _ in range(3)])
-        if x < 0.97:
+        if x < 0.955:
             return ("op", r.choice(ENV1), [self.tree(h0, depth - 1)])
+        if x < 0.98:
+            # a value used twice by one instruction (DUP1 after the value)
+            return ("twice", r.choice(["ADD", "MUL", "SUB", "AND", "LT", "EQ", "XOR"]), self.tree(h0, depth - 1))
         return self.load_tree(h0)
+
+    def killed(self, t):
+        """t computed and then cancelled by a rule (the instruction is in the block, its value is not needed)."""
+        r = self.rng
+        x = r.random()
+        if x < 0.3:
+            return ("op", "MUL", [t, ("const", 0)])
+        if x < 0.55:
+            return ("op", "AND", [("const", 0), t])
+        if x < 0.8:
+            return ("twice", r.choice(["SUB", "XOR"]), t)
+        return ("op", "MUL", [("const", 0), t])
 
     def instantiate(self, t, h0, depth):
         r = self.rng
@@ -237,6 +252,10 @@ class Gen:
             self.emit(t[1], None, 0, 1)
         elif k == "pseudo":
             self.emit(t[1], t[2], 0, 1)
+        elif k == "twice":
+            self.compile(t[2])
+            self.emit("DUP1", None, 1, 2)
+            self.emit(t[1], None, 2, 1)
         else:
             name, args = t[1], t[2]
             for a in reversed(args):
@@ -249,11 +268,35 @@ class Gen:
         self.compile(self.tree(h0, self.rng.choice([1, 2, 2, 3])))
 
     def st_load(self):
-        self.compile(self.load_tree(self.h))
+        r = self.rng
+        t = self.load_tree(self.h)
+        x = r.random()
+        if x < 0.2:
+            t = self.killed(t)
+        elif x < 0.3:
+            t = ("twice", r.choice(["ADD", "MUL", "LT", "OR"]), t)
+        self.compile(t)
 
     def st_store(self):
         r = self.rng
         h0 = self.h
+        if r.random() < 0.1:
+            # dead-load sandwich: store, a load of the same position whose value a rule cancels, then a store that
+            # overwrites the first one (which is dead only once the load has gone)
+            mem = r.random() < 0.6
+            addr = self.addr_tree(h0)
+            first, second = (r.choice([("MSTORE", "MSTORE"), ("MSTORE8", "MSTORE8"), ("MSTORE8", "MSTORE"), ("MSTORE", "MSTORE8")])
+                             if mem else ("SSTORE", "SSTORE"))
+            self.compile(self.leaf(h0))
+            self.compile(addr)
+            self.emit(first, None, 2, 0)
+            self.compile(self.killed(("op", "MLOAD" if mem else "SLOAD", [addr])))
+            if r.random() < 0.5:
+                self.emit("POP", None, 1, 0)
+            self.compile(self.tree(self.h, 1) if r.random() < 0.5 else self.leaf(self.h))
+            self.compile(addr)
+            self.emit(second, None, 2, 0)
+            return
         name = r.choice(["MSTORE", "MSTORE", "MSTORE8", "SSTORE", "SSTORE"])
         val = self.tree(h0, 1) if r.random() < 0.6 else self.leaf(h0)
         addr = self.addr_tree(h0)
